@@ -12,8 +12,12 @@ oracle     : 5-point central differences of `forward` with power-of-two steps
              a float64 input: scalars, 1-/2-/3-d, C/Fortran order, transposed /
              strided / reversed / block views, read-only, byte-swapped,
              DataFrame.to_numpy()) and input class S (one object and one work buffer
-             through sequences of parameter changes, in-place refills and calls) -
-             oracle only
+             through sequences of parameter changes, in-place refills and calls),
+             input class W (used objects walked down / up / across ladders of values with
+             each way of setting, a sibling object used in between; forward judged on ALL
+             ordered pairs of points lying on both sides of every seam of forward), input
+             class X (exponents around every branch threshold x points with extreme
+             logarithms) and input class L (large arrays with ties) - oracle only
 """
 import math
 import os
@@ -611,6 +615,436 @@ def softmax_checks(ctx):
                 break
 
 
+# ----------------------------------------------------------------------------
+# input classes W and X (oracle only)
+#
+# W  walks: ONE object per (class, way of setting a value, direction of the walk), already USED (forward,
+#    jacobian, sometimes backward called on it) before every change, taken DOWN a ladder of parameter
+#    vectors (one value lowered per step), UP the ladder (one value raised per step) or through shuffled
+#    vectors (every value changed; a reset() in between); each of the API's ways of setting is used alone
+#    on its object (attribute, item, params item, params attribute: one element of the live array is
+#    assigned; params.values = ...: a new array), parameters and constants alike; for every second object
+#    a SIBLING object of the same class holding other values is set and called between the walker's
+#    change and its evaluation.  After every change the clauses of the property are judged on a point set
+#    that lies on BOTH sides of every seam of forward (the sign change of BoxCox2sym at 0, the formula
+#    switch of Yeo-Johnson at nu + scale*x = 0 / EPS, the centre of symmetry of Sinh / Manly / Logit, the
+#    zero of the logarithm / power family at x + nu = 1, a + b*x/xmax = a for LogSinh) at distances from
+#    2^-40 to 1 times the natural scale, the seam itself included: forward non-decreasing over ALL ordered
+#    pairs (running maximum; the pairs straddling a seam are the ones no stencil can see), jacobian > 0,
+#    jacobian = derivative (stencil of forward through the same object, and the jacobian of a fresh
+#    object) at every interior point.
+# X  extremes: exponents at / one ulp either side of EVERY threshold at which some method could switch
+#    formula (EPS, the isclose windows 1e-8 around 0 and 1e-8 + 2e-5 around 2) x points whose logarithm is
+#    large (x + nu resp. |nu + scale*x| from 1e-100 to 1e100, inside |lam * ln| <= 13.8): a jacobian and a
+#    forward that pick their formula from two different tests differ by the factor exp(lam * ln z), which
+#    exceeds 1e-4 only far from the origin.  Same clauses, same stencil.
+
+WALK_STYLES = ("attr", "item", "vector-item", "vector-attr", "values")
+WALK_DIRECTIONS = ("down", "up", "shuffled")
+
+
+def walk_ladders(name, opts):
+    """{value name: increasing legal values} - rungs of the ladders of input class W"""
+    b = tc.bounds(name, opts)
+
+    def clip(n, vals):
+        lo, hi = b[n][2], b[n][3]
+        return sorted({min(max(float(v), lo), hi) for v in vals})
+
+    if name == "Logit":
+        return {"lower": clip("lower", [-2.0, 0.0, 3.0]), "logdelta": clip("logdelta", [-1.0, 0.0, 2.0])}
+    if name in ("Log", "Reciprocal"):
+        lo = b["nu"][2]
+        return {"nu": clip("nu", [lo + 1e-3, lo + 0.5, lo + 2.0, lo + 7.0])}
+    if name in ("BoxCox2", "BoxCox1lam", "BoxCox1nu", "BoxCox2sym"):
+        lo = b["nu"][2]
+        return {"nu": clip("nu", [lo + 1e-3, lo + 0.5, lo + 2.0, lo + 7.0]),
+                "lam": clip("lam", [-1.0, -0.5, 0.0, 0.2, 1.0, 1.7, 3.0])}
+    if name == "YeoJohnson":
+        return {"nu": clip("nu", [-3.0, 0.0, 0.5]), "scale": clip("scale", [0.1, 1.0, 10.0]),
+                "lam": clip("lam", [-1.0, 0.0, 0.5, 1.0, 2.0, 3.0])}
+    if name == "LogSinh":
+        return {"loga": clip("loga", [-5.0, -1.0, -0.1]), "logb": clip("logb", [-1.0, 0.0, 1.0]),
+                "xmax": clip("xmax", [1.0, 10.0, 1e3])}
+    if name == "Sinh":
+        return {"nu": clip("nu", [-1.0, 0.0, 100.0]), "scale": clip("scale", [0.1, 1.0, 1e3])}
+    if name == "Manly":
+        return {"lam": clip("lam", [-1.0, 0.0, 1e-3, 0.1, 1.0]), "xmax": clip("xmax", [1.0, 10.0, 1e4])}
+    raise KeyError(name)
+
+
+def walk_plan(name, opts, rng, direction, nmax):
+    """(first setting, [{name: value}]) - down / up: ONE value moves one or two rungs per step until every
+    value sits at the other end of its ladder; shuffled: vectors of the ladders' product and of C01's
+    generator, every value changes"""
+    lad = walk_ladders(name, opts)
+    names = sorted(lad)
+    if direction == "shuffled":
+        vecs = [{n: rng.choice(lad[n]) for n in names} for _ in range(nmax)]
+        vecs += tc.param_vectors(name, opts, rng, 6)[2:]
+        rng.shuffle(vecs)
+        return vecs[0], [dict(v) for v in vecs[1:nmax + 1]]
+    sgn = -1 if direction == "down" else 1
+    pos = {n: (len(lad[n]) - 1 if sgn < 0 else 0) for n in names}
+    end = {n: (0 if sgn < 0 else len(lad[n]) - 1) for n in names}
+    first = {n: lad[n][pos[n]] for n in names}
+    steps = []
+    k = rng.randrange(len(names))
+    total = sum(len(lad[n]) - 1 for n in names)
+    while len(steps) < nmax and any(pos[n] != end[n] for n in names):
+        n = names[k % len(names)]
+        k += 1
+        if pos[n] == end[n]:
+            continue
+        left = sum(abs(end[m] - pos[m]) for m in names)
+        jump = 2 if (left > nmax - len(steps) or (total <= nmax and rng.random() < 0.3)) else 1
+        pos[n] = max(pos[n] - jump, 0) if sgn < 0 else min(pos[n] + jump, end[n])
+        steps.append({n: lad[n][pos[n]]})
+    return first, steps
+
+
+def seam_points(name, opts, eff):
+    """domain points at and on both sides of the places where forward changes formula, sign or side of
+    its symmetry, at distances 2^-40 .. 1 of the natural scale; kept inside C01's conditioning region"""
+    from harness.props.c01 import in_region
+    c = []
+    pm = (1, -1)
+    try:
+        if name == "Identity":
+            c = [0.0] + [s * 2.0 ** -k for k in (0, 20) for s in pm]
+        elif name == "Logit":
+            d = math.exp(eff["logdelta"])
+            c = [eff["lower"] + d * 0.5] + [eff["lower"] + d * (0.5 + s * 2.0 ** -k) for k in (2, 8, 30) for s in pm]
+        elif name in ("Log", "BoxCox2", "BoxCox1lam", "BoxCox1nu", "Reciprocal"):
+            c = [1.0 - eff["nu"]] + [(1.0 + s * 2.0 ** -k) - eff["nu"] for k in (1, 12, 40) for s in pm]
+        elif name == "BoxCox2sym":
+            nu = eff["nu"]
+            c = [0.0] + [s * nu * 2.0 ** -k for k in (0, 4, 16, 40) for s in pm] + [s * v for v in (1e-12, 1.0) for s in pm]
+        elif name == "YeoJohnson":
+            ws = [0.0] + [s * 2.0 ** -k for k in (20, 10, 3, 0) for s in pm]
+            c = [(w - eff["nu"]) / eff["scale"] for w in ws]
+        elif name == "LogSinh":
+            a, b = math.exp(eff["loga"]), math.exp(eff["logb"])
+            c = [0.0] + [eff["xmax"] * (s * a * 2.0 ** -k) / b for k in (1, 10, 30) for s in pm]
+        elif name == "Sinh":
+            c = [eff["nu"]] + [eff["nu"] + s * 2.0 ** -k / eff["scale"] for k in (16, 6, 0) for s in pm]
+        elif name == "Manly":
+            c = [0.0] + [s * 2.0 ** -k * eff["xmax"] for k in (16, 6, 0) for s in pm]
+    except (ValueError, OverflowError, ZeroDivisionError):
+        return []
+    return sorted({float(x) for x in c if in_region(name, opts, eff, float(x))})
+
+
+def monotone_pairs(ctx, tag, name, opts, eff, rep0, t, xs):
+    """`x1 < x2 implies forward(x1) <= forward(x2)` (equality within rounding) over ALL ordered pairs of
+    the domain points xs handed to `t.forward` as one array.  False after a report."""
+    xs = sorted(set(xs))
+    who = f"{name}{opts} {eff}"
+    out, _, err = call_on(t, "fwd", np.array(xs, dtype=np.float64))
+    if out is None or len(out) != len(xs):
+        ctx.failure(f"C02/{name}/{tag}-forward-raises", dict(rep0, method="forward", x=xs, exception=err),
+                    f"{who}: forward(x) raised {err} (or lost elements) for the domain points x = {xs}")
+        return False
+    best = None                      # running maximum (forward value, point, rounding bound)
+    for x, f in zip(xs, out):
+        if not math.isfinite(f):
+            continue
+        if name == "YeoJohnson" and 0 < eff["nu"] + x * eff["scale"] < tc.eps():
+            continue
+        a = tc.amp(name, "fwd", opts, eff, x, f)
+        if not math.isfinite(a):
+            continue
+        ctx.count((name, tag, "monotone"))
+        if best is not None and not best[0] <= f + 16 * tc.U * (best[2] + a):
+            ctx.failure(f"C02/{name}/{tag}-forward-not-increasing",
+                        dict(rep0, method="forward", x=xs, x1=best[1], x2=x, f1=best[0], f2=f, output_all=out),
+                        f"{who}: forward({best[1]!r}) = {best[0]!r} > forward({x!r}) = {f!r} "
+                        f"(both in one call on x = {xs})")
+            return False
+        if best is None or f > best[0]:
+            best = (f, x, a)
+    return True
+
+
+def judge_setting(ctx, tag, name, opts, t, rep0, rng, npts, pattern, mono_first, between=None):
+    """the clauses of the property for the values `t` holds now, on seam_points + `npts` points of C01's
+    generator; `between()` runs between the two parts of the judgement (all pairs of forward / the
+    element-wise clauses).  None: nothing to judge here (values outside the conditioning region), else
+    True / False"""
+    eff = tc.stored_values(t)
+    if any(math.isnan(v) for v in eff.values()):
+        return None
+    fresh, eff2 = tc.make(name, opts, eff)
+    if eff2 != eff:
+        return None
+    xs = seam_points(name, opts, eff) + tc.points(name, opts, eff, rng, npts)
+    if len(set(xs)) < 2:
+        return None
+    recs = point_records(name, opts, eff, fresh, xs)
+    rep0 = dict(rep0, values=eff)
+    for n, part in enumerate((0, 1) if mono_first else (1, 0)):
+        if n and between is not None:
+            between()
+        if part == 0:
+            if not monotone_pairs(ctx, tag, name, opts, eff, rep0, t, xs):
+                return False
+        elif recs and not eval_elements(ctx, tag, name, opts, eff, rep0, t, recs, list(range(len(recs))),
+                                        (len(recs),), lambda M: M.copy(), pattern, False):
+            return False
+    return True
+
+
+def walk_checks(ctx):
+    """input class W for the 11 element-wise classes that hold values"""
+    rng = ctx.rng
+    nmax = ctx.scale(6, 14)
+    nobj = nset = 0
+    for name in tc.CLASSES:
+        if name == "Softmax" or not tc.bounds(name, {}):
+            continue
+        variants = tc.ctor_variants(name, rng, c02=True)
+        oi = 0
+        for rep in range(ctx.scale(1, 2)):
+            for style in WALK_STYLES:
+                for direction in WALK_DIRECTIONS:
+                    oi += 1
+                    opts = variants[(oi + rep) % len(variants)]
+                    try:
+                        first, steps = walk_plan(name, opts, rng, direction, nmax)
+                    except (ValueError, OverflowError, ZeroDivisionError, KeyError, IndexError):
+                        # ladders cannot be formed inside the bounds extracted from this tree (the proofs
+                        # report a broken bound)
+                        ctx.notes.setdefault("walk_plan_fallback", []).append(name)
+                        continue
+                    plan = [(style, s) for s in steps]
+                    if direction == "shuffled" and plan:
+                        plan.insert(1 + rng.randrange(len(plan)), ("reset", {}))
+                    cm.mark({"call": "transform (walk)", "class": name, "opts": opts, "first": first, "plan": plan})
+                    t, _ = tc.make(name, opts, first, via_get=oi % 4 == 2)
+                    sib = tc.make(name, opts, first)[0] if oi % 2 else None
+                    lad = walk_ladders(name, opts)
+                    others = [{n: v[-1] for n, v in lad.items()}, {n: v[0] for n, v in lad.items()},
+                              {n: rng.choice(v) for n, v in lad.items()}]
+                    turn = [oi]
+                    nobj += 1
+                    history = [("construct", first)]
+                    for si in range(len(plan) + 1):
+                        if si:
+                            st, changes = plan[si - 1]
+                            history.append((st, changes))
+                            try:
+                                tc.apply_step(t, st, changes)
+                            except Exception as e:      # noqa: BLE001
+                                ctx.failure(f"C02/{name}/walk-set-raises",
+                                            {"class": name, "opts": opts, "history": history, "exception": repr(e)},
+                                            f"{name}{opts}: {st} {changes} raised {type(e).__name__}")
+                                break
+
+                        def use_sibling(history=history, turn=turn):
+                            # another object of the class is given other values (top of every ladder, bottom,
+                            # a shuffled vector, in turn) and called
+                            turn[0] += 1
+                            other = others[turn[0] % len(others)]
+                            try:
+                                tc.apply_step(sib, "values", {**tc.stored_values(sib), **other})
+                                call_on(sib, "fwd", np.array([0.25, -0.5, 2.0]))
+                                call_on(sib, "jac", np.array([0.25, -0.5, 2.0]))
+                                history.append(("a sibling object set to and called (forward, jacobian)", other))
+                            except Exception:           # noqa: BLE001 - the sibling is not under test
+                                pass
+
+                        if sib is not None:
+                            use_sibling()
+                        pattern = PATTERNS[(si + oi) % len(PATTERNS)]
+                        rep0 = {"class": name, "opts": opts, "history": list(history), "direction": direction,
+                                "way_of_setting": style,
+                                "input_class": "walk of one used object along a ladder of values (W)"}
+                        res = judge_setting(ctx, "walk", name, opts, t, rep0, rng, 4, pattern, (si + oi) % 2 == 0,
+                                            use_sibling if sib is not None else None)
+                        if res is False:
+                            break
+                        if res:
+                            nset += 1
+                            history.append(("judged: forward on all pairs, " + ", ".join(pattern) + ", stencil", None))
+                        if (si + oi) % 3 == 0:          # the rest of the API is part of the use of an object
+                            use_otherwise(t)
+                            history.append(("backward, backward_censored, params_sample, params_logprior, str "
+                                            "called", None))
+    ctx.notes["walk_objects"] = nobj
+    ctx.notes["walk_settings_judged"] = nset
+
+
+def use_otherwise(t):
+    """the other public methods of a transform, as a user of the object would call them between two
+    evaluations (their results are not C02's matter)"""
+    y = np.array([-0.5, 0.0, 0.125, 1.0])
+    for f in (lambda: t.backward(y), lambda: t.backward_censored(y, 0.0), lambda: t.params_sample(3),
+              lambda: t.params_logprior(), lambda: str(t)):
+        try:
+            with np.errstate(all="ignore"):
+                f()
+        except Exception:               # noqa: BLE001
+            pass
+
+
+def extreme_checks(ctx):
+    """input class X: threshold exponents x extreme logarithms (the vectors and points of C01's class X)"""
+    n = 0
+    for name in ("Log", "BoxCox2", "BoxCox1lam", "BoxCox1nu", "BoxCox2sym", "YeoJohnson"):
+        cm.mark({"call": "transform.jacobian (class X)", "class": name})
+        alive = True
+        for k, (opts, vals) in enumerate(tc.extreme_vectors(name)):
+            base = opts.get("base")
+            if base is not None and base < 1:           # decreasing: outside the positivity clause
+                continue
+            t, eff = tc.make(name, opts, vals, k % 8 == 3)
+            xs = tc.extreme_points(name, opts, eff)
+            if not xs:
+                continue
+            recs = point_records(name, opts, eff, t, xs)
+            rep0 = {"class": name, "opts": opts, "values": eff,
+                    "input_class": "threshold exponent x extreme logarithm (X)"}
+            n += len(xs)
+            alive = monotone_pairs(ctx, "extreme", name, opts, eff, rep0, t, xs)
+            if alive and recs:
+                alive = eval_elements(ctx, "extreme", name, opts, eff, rep0, t, recs, list(range(len(recs))),
+                                      (len(recs),), lambda M: M.copy(), ("jac", "fwd"), False)
+            if not alive:
+                break
+    ctx.notes["classX_points"] = n
+
+
+def large_array_checks(ctx):
+    """input class L: one call on a LARGE 1-d array (contiguous, and a strided view of a larger one) whose
+    elements repeat a dozen domain points many times (ties), in an order that is not sorted: every element of
+    jacobian(x) is positive and equals the derivative at ITS element (stencil of forward evaluated through
+    arrays of the same size; the jacobian of a fresh object on the dozen points), forward is non-decreasing
+    over the elements.  Vectorised: the clauses are those of eval_elements."""
+    rng = ctx.rng
+    n = ctx.scale(50021, 200003)
+    nchk = 0
+    for name in tc.CLASSES:
+        if name == "Softmax":
+            continue
+        variants = tc.ctor_variants(name, rng, c02=True)
+        for k in range(ctx.scale(2, 4)):
+            opts = variants[k % len(variants)]
+            vals = vec_k(name, opts, rng, k + 1)
+            t, eff = tc.make(name, opts, vals, k % 2 == 1)
+            recs = point_records(name, opts, eff, t, seam_points(name, opts, eff) + tc.points(name, opts, eff, rng, 8))
+            if len(recs) < 2:
+                continue
+            m = len(recs)
+            order = np.array([(i * 7 + (i // m)) % m for i in range(m * 3)])      # period 3m, not sorted
+            sel = np.resize(order, n)
+            px = np.array([r["x"] for r in recs])
+            pj = np.array([r["j"] for r in recs])
+            ph = np.array([r["h"] for r in recs])
+            pn = np.array([r["noise"] if r["noise"] is not None else 0.0 for r in recs])
+            pa = np.array([tc.amp(name, "fwd", opts, eff, r["x"], r["f"]) if r["f"] is not None and
+                           math.isfinite(r["f"]) else math.inf for r in recs])
+            X, H = px[sel], ph[sel]
+            who = f"{name}{opts} {eff}"
+            for label, build in (("C-contiguous", lambda M: M.copy()),
+                                 ("strided view a[1::3] of a larger array", _r_strided)):
+                fresh, _ = tc.make(name, opts, eff)
+                A = build(X)
+                desc = describe(A)
+                rep0 = {"class": name, "opts": opts, "values": eff, "representation": label, "array": desc,
+                        "input_class": "large array with ties (L)", "distinct_points": px.tolist(),
+                        "x": f"distinct_points[order[i % {3 * m}]] for i < {n}", "order": order.tolist()}
+                cm.mark({"call": "transform.jacobian (large array)", "class": name, "opts": opts, "vals": eff})
+
+                def fail(mode, extra, text, rep0=rep0):
+                    ctx.failure(f"C02/{name}/large-{mode}", dict(rep0, **extra), f"{who}: {text}")
+
+                J, jshape, jerr = call_on(fresh, "jac", A)
+                F, fshape, ferr = call_on(fresh, "fwd", A)
+                bad = None
+                for meth, out, oshape, err in (("jacobian", J, jshape, jerr), ("forward", F, fshape, ferr)):
+                    if out is None:
+                        bad = fail(f"{meth}-raises", {"method": meth, "exception": err},
+                                   f"{meth}(x) raised {err} for x of {n} elements passed as {desc}") or True
+                    elif oshape != (n,):
+                        bad = fail(f"{meth}-shape", {"method": meth, "output_shape": list(oshape)},
+                                   f"{meth}(x) has shape {oshape} for x of shape ({n},) passed as {desc}") or True
+                    if bad:
+                        break
+                if bad:
+                    break
+                J, F = np.array(J), np.array(F)
+                nchk += n
+                ctx.count((name, "large", label), n=n)
+                with np.errstate(all="ignore"):
+                    notpos = np.flatnonzero(~(J > 0))
+                    differs = np.flatnonzero(~(np.abs(J - pj[sel]) <= REL * np.abs(pj[sel])))
+                if notpos.size:
+                    i = int(notpos[0])
+                    fail("jacobian-not-positive", {"method": "jacobian", "index": i, "x_at_index": float(X[i]),
+                                                   "output": float(J[i]), "failing_elements": int(notpos.size)},
+                         f"jacobian(x)[{i}] = {float(J[i])!r} is not positive at x[{i}] = {float(X[i])!r} "
+                         f"({notpos.size} of {n} elements; x passed as {desc})")
+                    break
+                if differs.size:
+                    i = int(differs[0])
+                    fail("jacobian-differs-from-derivative",
+                         {"method": "jacobian", "index": i, "x_at_index": float(X[i]), "output": float(J[i]),
+                          "reference_jacobian": float(pj[sel][i]), "failing_elements": int(differs.size)},
+                         f"jacobian(x)[{i}] = {float(J[i])!r} but the derivative of forward at x[{i}] = "
+                         f"{float(X[i])!r} is {float(pj[sel][i])!r} (jacobian of a fresh object on the "
+                         f"{m} distinct points); {differs.size} of {n} elements; x passed as {desc}")
+                    break
+                # the stencil through arrays of the same size and representation
+                Fd = {}
+                for d in (-2, -1, 1, 2):
+                    out, _, _ = call_on(fresh, "fwd", build(X + d * H))
+                    if out is None or len(out) != n:
+                        Fd = None
+                        break
+                    Fd[d] = np.array(out)
+                if Fd:
+                    with np.errstate(all="ignore"):
+                        fd = (Fd[-2] - 8 * Fd[-1] + 8 * Fd[1] - Fd[2]) / (12 * np.where(H > 0, H, 1.0))
+                        off = np.flatnonzero((H > 0) & ~(np.abs(fd - J) <= REL * np.abs(J) + pn[sel]))
+                    if off.size:
+                        i = int(off[0])
+                        fail("jacobian-differs-from-finite-difference",
+                             {"method": "jacobian", "index": i, "x_at_index": float(X[i]), "output": float(J[i]),
+                              "h": float(H[i]), "finite_difference": float(fd[i]),
+                              "forward_at_stencil": [float(Fd[d][i]) for d in (-2, -1, 1, 2)],
+                              "failing_elements": int(off.size)},
+                             f"jacobian(x)[{i}] = {float(J[i])!r} at x[{i}] = {float(X[i])!r}, 5-point central "
+                             f"difference of forward (h={float(H[i])!r}, evaluated through arrays of the same "
+                             f"size) = {float(fd[i])!r}; {off.size} of {n} elements; x passed as {desc}")
+                        break
+                # forward non-decreasing over the elements (stable sort by x; ties must agree within rounding too)
+                srt = np.argsort(X, kind="stable")
+                xs_, fs_, as_ = X[srt], F[srt], pa[sel][srt]
+                use = np.isfinite(fs_) & np.isfinite(as_)
+                if name == "YeoJohnson":
+                    w = eff["nu"] + xs_ * eff["scale"]
+                    use &= ~((w > 0) & (w < tc.eps()))
+                xs_, fs_, as_ = xs_[use], fs_[use], as_[use]
+                if xs_.size > 1:
+                    runmax = np.maximum.accumulate(fs_)
+                    # index of the running maximum (first position reaching it)
+                    first_at = np.flatnonzero(np.concatenate(([True], fs_[1:] > runmax[:-1])))
+                    imax = first_at[np.searchsorted(first_at, np.arange(xs_.size), side="right") - 1]
+                    prev = imax[:-1]
+                    down = np.flatnonzero(~(fs_[prev] <= fs_[1:] + 16 * tc.U * (as_[prev] + as_[1:])))
+                    if down.size:
+                        q = int(down[0])
+                        x1, f1 = float(xs_[prev[q]]), float(fs_[prev[q]])
+                        x2, f2 = float(xs_[q + 1]), float(fs_[q + 1])
+                        fail("forward-not-increasing",
+                             {"method": "forward", "x1": x1, "x2": x2, "f1": f1, "f2": f2,
+                              "failing_elements": int(down.size)},
+                             f"forward(x) has {f1!r} at an element {x1!r} > {f2!r} at an element {x2!r} "
+                             f"(x of {n} elements passed as {desc})")
+                        break
+    ctx.notes["large_array_elements"] = nchk
+
+
 def run(ctx):
     ctx.rule = ("12 scalar classes x constructor-option variants (log base > 1) x parameter vectors as in "
                 "C01 x interior domain points; jacobian through the public API; Softmax: 2-D rows; "
@@ -619,7 +1053,15 @@ def run(ctx):
                 "1-/2-/3-d arrays, C/Fortran order, transposed, axes-permuted, strided, reversed, column and "
                 "block views, read-only, non-native byte order, DataFrame.to_numpy(); Softmax: also lists); "
                 "S = one object and one array object through sequences (parameters changed in the 6 API "
-                "styles, buffer refilled / scaled / perturbed in place, forward and jacobian in varying order)")
+                "styles, buffer refilled / scaled / perturbed in place, forward and jacobian in varying order); "
+                "W = one used object per (class, way of setting, direction) walked down / up a ladder of values "
+                "one value per step or across shuffled vectors (reset in between), a sibling object of the class "
+                "set and called in between, points on both sides of every seam of forward (0 for BoxCox2sym, "
+                "nu + scale*x = 0 for Yeo-Johnson, centres of symmetry, x + nu = 1) from 2^-40 to 1 of the natural "
+                "scale: forward over all ordered pairs, jacobian clauses at the interior points; "
+                "X = exponents at / around EPS and the isclose windows at 0 and 2 x |ln(x + nu)|, |ln(1 + |w|)| up "
+                "to 230 inside |lam * ln| <= 13.8; L = one call on 50021 (thorough: 200003) elements with ties, "
+                "contiguous and strided")
     ctx.trusted = cm.STD_TRUST + [
         "engine E3: the real-number model evaluated by `interval` inside Coq at the implementation's "
         "inputs, compared with the implementation's jacobian under an a priori forward-error bound",
@@ -633,6 +1075,9 @@ def run(ctx):
         "Log with a base < 1 is decreasing: outside the positivity clause (generators use base > 1)",
         "independence of jacobian/forward from the memory representation of x and from the history of the "
         "object / of the array passed (input classes R and S): tested; the model is a pure function of the values",
+        "independence from the history of parameter changes, from other objects of the class and from the size "
+        "of the array (input classes W, L), agreement of the formula selection of jacobian and forward around "
+        "the branch thresholds far from the origin (input class X): tested",
         "R leaves out float32/integer inputs (the 1e-4 clause is stated for binary64 points), 0-d arrays, and "
         "0-d inputs of YeoJohnson (TypeError in dutils.cast under this numpy on the unchanged tree)",
     ]
@@ -811,11 +1256,18 @@ def run(ctx):
     sequence_checks(ctx)
     softmax_checks(ctx)
     t_rs = time.time() - t_rs
+    t_wxl = time.time()
+    walk_checks(ctx)
+    extreme_checks(ctx)
+    large_array_checks(ctx)
+    t_wxl = time.time() - t_wxl
 
     t1 = time.time()
     bad, nok, nshards, failed = tc.run_e3(PID, goals, shard=ctx.scale(40, 60))
-    ctx.notes["timing_s"] = {"prove": round(t_prove, 1), "generate+oracle": round(t1 - t0 - t_prove - t_rs, 1),
-                             "classes R+S": round(t_rs, 1), "e3": round(time.time() - t1, 1)}
+    ctx.notes["timing_s"] = {"prove": round(t_prove, 1),
+                             "generate+oracle": round(t1 - t0 - t_prove - t_rs - t_wxl, 1),
+                             "classes R+S": round(t_rs, 1), "classes W+X+L": round(t_wxl, 1),
+                             "e3": round(time.time() - t1, 1)}
     ctx.notes["correspondence_goals"] = len(goals)
     ctx.notes["correspondence_mismatches"] = len(bad)
     ctx.notes["e3_shards"] = nshards
